@@ -127,7 +127,8 @@ def base_matrix(seed, quick):
                        emax=[3, 30, 300, 2000][i % 4], dets=i % 6, fluct=i % 2,
                        scale=[1, 5, 20, 50][(i // 2) % 4], order=orders[i % len(orders)] if i % 3 else "none",
                        inflight=[0, 2, 5][i % 3], maxsteps=40000,
-                       field=[0, 0, 1, 0, 0.01, 0, 5, 0][(i // 3) % 8]))
+                       field=[0, 0, 1, 0, 0.01, 0, 5, 0][(i // 3) % 8],
+                       killat=[0, 0, 0, 0, 3, 0, 0, 7][(i // 2) % 8]))
     return cs
 
 
